@@ -466,7 +466,6 @@ default:
 		options.WithTimeoutOps(5*time.Second),
 		options.WithLogger(li),
 		options.WithChannelLog(col),
-		options.WithPromptPattern(nil),
 	)
 	if err != nil {
 		return ev.Fail("NewPlatform: %v\n%s", err, def)
@@ -511,12 +510,21 @@ default:
 	}
 
 	lines := dev.LineStrings()
-	if len(lines) < 2 || lines[0] != c.Visible || lines[1] != c.Secret {
-		return ev.Fail("device received %q, want the visible input then the secret", lines)
-	}
-
 	if l := leak(c.Secret, col.sinks()); l != "" {
 		return ev.Fail("the redacted on-open input leaked into %s", l)
+	}
+
+	// non-vacuity only: both inputs did travel (what else the device receives, and in which
+	// order, is not this property's business)
+	sawVisible, sawSecret := false, false
+
+	for _, l := range lines {
+		sawVisible = sawVisible || l == c.Visible
+		sawSecret = sawSecret || l == c.Secret
+	}
+
+	if !sawVisible || !sawSecret {
+		return ev.Verdict{OK: true, Infeasible: true, Classes: []string{"on-open-inputs-did-not-travel"}, Note: fmt.Sprintf("%q", lines)}
 	}
 
 	v := ev.Verdict{OK: true, Classes: []string{"level=" + c.LogLevel, "section=" + section}}
